@@ -194,12 +194,19 @@ Definition g_scfg (v : val) : option scfg :=
   | _ => None end.
 
 (* scripted behaviours layered over [serve], per request number *)
-Inductive script := SNormal | SStatus (s : N) | SDrop | SShort | SLong | SIgnoreRange.
+(* SCutBody: the reply starts normally and the connection is lost in the body
+   (a transport failure, for the client the same class as a dropped
+   connection); SBadGzip: Content-Encoding: gzip with a damaged stream.  Both
+   only apply to GET replies that would be 200 / 206. *)
+Inductive script := SNormal | SStatus (s : N) | SDrop | SShort | SLong | SIgnoreRange
+                  | SCutBody | SBadGzip.
 Definition g_script (v : val) : option script :=
   match v with
   | VT "normal" => Some SNormal | VL [VT "status"; VZ s] => Some (SStatus (Z.to_N s))
   | VT "drop" => Some SDrop | VT "short" => Some SShort | VT "long" => Some SLong
   | VT "ignore-range" => Some SIgnoreRange
+  | VT "cut-body" => Some SCutBody | VT "cut-chunked" => Some SCutBody
+  | VT "bad-gzip" => Some SBadGzip
   | _ => None end.
 Definition g_scripts (v : val) : option (list script) :=
   match v with VL l => all_some (map g_script l) | _ => None end.
@@ -222,6 +229,16 @@ Definition scripted (sc : scfg) (t : fs blob) (scr : list script) : server blob 
       match normal with
       | Resp st enc (BPlain x) => Resp st enc (BPlain (x ++ [0%N]))
       | r => r end
+  | SCutBody =>
+      match r_meth rq, normal with
+      | GET, Resp st _ _ => if orb (st =? 200)%N (st =? 206)%N then ConnErr else normal
+      | _, _ => normal end
+  | SBadGzip =>
+      match r_meth rq, normal with
+      | GET, Resp st _ _ =>
+          (* the table-driven gunzip answers "bad" for this body *)
+          if orb (st =? 200)%N (st =? 206)%N then Resp st true (BPlain [255%N]) else normal
+      | _, _ => normal end
   end.
 
 Definition v_req (r : req) : val :=
